@@ -27,6 +27,10 @@ BODIES = {
     "sighandler": PID + "import signal, time\nsignal.signal(signal.SIGINT, lambda *a: None)\nwhile True:\n    time.sleep(0.2)\n",
     "sigign": PID + "import signal, time\nsignal.signal(signal.SIGINT, signal.SIG_IGN)\nwhile True:\n    time.sleep(0.2)\n",
     "mto-retry": PID + "import time\ntime.sleep(30.0 + channel.receive())\n",
+    # a receiver callback whose channel object was dropped is left over when the connection ends
+    "cb-dropped": PID + "c = channel.gateway.newchannel()\nc.setcallback(lambda x: None, endmarker=None)\ndel c\nimport time\ntime.sleep(30.0 + channel.receive())\n",
+    # a large backlog of unread items sits in the channel's queue when the connection ends
+    "backlog": PID + "import time\ntime.sleep(30.0 + channel.receive())\n",
     "extra0": PID + "import threading\ndef spin():\n    while True:\n        pass\nthreading.Thread(target=spin, daemon=True).start()\n",
     "extra1": PID + "import time\ntime.sleep(0.4)\n",
     "transfer-in": PID + "while True:\n    channel.receive()\n",
@@ -80,6 +84,11 @@ else:
                 c2.waitclose(5.0)
             except Exception:
                 pass
+    if cls in ("cb-dropped", "backlog"):
+        ch.send(float(spec["delay"]))
+        if cls == "backlog":
+            for i in range(12000):
+                ch.send(i)
     if cls in ("sleep-short", "sleep-long"):
         # the remaining sleep is counted from about the moment the connection ends
         ch.send(float(spec["delay"]))
